@@ -79,28 +79,32 @@ Definition mw_count (m : mwmap) (w : str) : Z :=
 
 (* _identify_multi.  Outer fuel = recursion depth (the recursive call is on a
    strictly shorter suffix when min_len >= 1); None = fuel exhausted
-   (RecursionError), Some None = Python's None. *)
+   (RecursionError), Some None = Python's None.
+   mw_loop is `for index in range(max_index, min_len - 1, -1)` with [rec] the
+   recursive call; n = iterations left. *)
+Fixpoint mw_loop (rec : str -> option (option (list str))) (m : mwmap) (s : str) (n : nat) (index : Z)
+  : option (option (list str)) :=
+  match n with
+  | O => Some None
+  | S n' =>
+      if threshold <=? mw_count m (slice s 0 index) then
+        if threshold <=? mw_count m (sfrom s index) then
+          Some (Some [slice s 0 index; sfrom s index])
+        else
+          match rec (sfrom s index) with
+          | None => None
+          | Some (Some (x :: res)) => Some (Some (slice s 0 index :: x :: res))
+          | Some _ => mw_loop rec m s n' (index - 1)
+          end
+      else mw_loop rec m s n' (index - 1)
+  end.
+
 Fixpoint mw_identify (fuel : nat) (m : mwmap) (s : str) : option (option (list str)) :=
   match fuel with
   | O => None
   | S f =>
       let max_index := len s - min_len in
-      (* for index in range(max_index, min_len - 1, -1) *)
-      (fix loop (n : nat) (index : Z) : option (option (list str)) :=
-         match n with
-         | O => Some None
-         | S n' =>
-             if threshold <=? mw_count m (slice s 0 index) then
-               if threshold <=? mw_count m (sfrom s index) then
-                 Some (Some [slice s 0 index; sfrom s index])
-               else
-                 match mw_identify f m (sfrom s index) with
-                 | None => None
-                 | Some (Some (x :: res)) => Some (Some (slice s 0 index :: x :: res))
-                 | Some _ => loop n' (index - 1)
-                 end
-             else loop n' (index - 1)
-         end) (Z.to_nat (max_index - (min_len - 1))) max_index
+      mw_loop (mw_identify f m) m s (Z.to_nat (max_index - (min_len - 1))) max_index
   end.
 
 (* parse: (If_Parsed, words); None = fuel exhausted *)
